@@ -22,6 +22,8 @@ CONFIGS = [("jit", {}), ("nojit", {"STEEL_JIT": "false"})]
 # for a seeded eighth of the tuples (the thorough tier replays every shape of every tuple)
 PROBE = {"opq", "nest"}                     # phase-1 shapes (one per tuple)
 AFTER_PANIC = {"fold", "fn", "fnacc"}      # phase-2 shapes still replayed for a tuple whose probe panicked
+# in-function shapes additionally replayed as a module file
+MODULE_SHAPES = {"opq", "fn", "fnlitR", "fnlitL", "fnif", "fniflitR", "fnacc", "fnacclit", "fnloop", "namedlet", "fnnest", "fncap", "fnarg"}
 ALWAYS = {"fold", "opq", "nest", "fn", "fnlitR", "fnif", "fnacc", "namedlet"}
 
 
@@ -214,13 +216,47 @@ def run(tier, seed, cfg_name=None):
                 if not v["pass"] and ("[panic:" in v["why"] or v["why"].startswith("process crash")):
                     panicking.add(c["tkey"])
         runs.append(pruns)
+    # Phase 3: the in-function shapes again, compiled AS A MODULE (the way `steel file.scm` runs a file).
+    # Only inside a module are the builtins resolved to #%prim.*, which selects the arithmetic opcodes
+    # (ADD, LT, ...) and the JIT's typed helpers; top-level Engine::run code reaches the same primitives
+    # through global variables.  Expected errors cost one module file each: a seeded eighth of them.
+    mroot = os.path.join(work, "modules")
+    import shutil
+    shutil.rmtree(mroot, ignore_errors=True)
+    mcs = [c for c in cases if c["sh"] in MODULE_SHAPES and c["tkey"] not in panicking
+           and (c["cls"] != "err" or tier != "quick" or (int(c["tkey"][:8], 16) + seed) % 8 == 0)]
+    # negative zero is written (- 0.0) by the spec; inside a module that expression is constant-folded and
+    # the folded constant loses its sign (known finding C10-folded-negative-zero-loses-sign).  An OPERAND
+    # that merely happens to be negative zero is therefore built at run time here; a literal (- 0.0) in
+    # the tested call itself stays as it is.
+    mcs = [dict(c, steps=[dict(st, src=st["src"].replace("(opaque (- 0.0))", "(opaque (- (opaque 0.0)))")) for st in c["steps"]])
+           for c in mcs]
+    # A small function called directly is inlined into its caller (here: module top level, which is not
+    # native code).  A second variant calls it through (opaque f), so that the function's own (natively
+    # compiled) body runs.
+    def indirect(c):
+        last = c["steps"][-1]
+        if len(c["steps"]) < 2 or "(c10f@@ " not in last["src"]:
+            return None
+        return dict(c, id=c["id"] + "~ind", sh=c["sh"] + "~ind", tag=c["tag"] + "~ind",
+                    steps=c["steps"][:-1] + [dict(last, src=last["src"].replace("(c10f@@ ", "((opaque c10f@@) "))])
+    mcs += [i for i in map(indirect, mcs) if i]
+    mruns = []
+    failed_top = {v["id"] for pruns in runs for cs, vs in pruns for v in vs if not v["pass"]}
+    failed_top |= {i.replace("/", "~ind/", 1) for i in failed_top}
+    for name, env in CONFIGS:
+        cs, vs = vlib.replay_as_modules(with_env(mcs, name, env), work, mroot, env_extra=env, name=f"c10.mod.{name}",
+                                        single_ids=failed_top)
+        mruns.append((cs, vs))
+    annotate_crashes(mruns[0][1], mruns[1][1])
+    runs.append(mruns)
     disagree = 0
     passing = []
     for pruns in runs:
         for cs, vs in pruns:
             r.add_cases(cs, vs, nontrivial=nontrivial)
         disagree += sum(1 for a, b in zip(pruns[0][1], pruns[1][1]) if a["pass"] != b["pass"])
-        passing += [c for c, v in zip(pruns[0][0], pruns[0][1]) if v["pass"]]
+        passing += [c for c, v in zip(pruns[0][0], pruns[0][1]) if v["pass"] and not c["id"].endswith("@mod")]
     replayed = sum(len(pruns[0][0]) for pruns in runs)
     r.notes.append(f"cases whose verdict differs between JIT on and STEEL_JIT=false: {disagree}")
     r.notes.append(f"tuples whose primitive panics: {len(panicking)}; their {skipped} remaining shape cases "
